@@ -47,7 +47,26 @@ fn memory_program(rng: &mut Prng) -> (String, Module) {
     let mut m = Module::default();
     let mut main = vec![set("_", nil())];
     let name;
-    match rng.below(9) {
+    match rng.below(10) {
+        9 => {
+            name = "churn:function-values";
+            // every kind of function value is an object of its own: native, script function, closure
+            let n = rng.range(50, 600);
+            m.functions.push(("h".into(), func(&["x"], vec![un("ret", read("x"))])));
+            main.push(set("acc", int(0)));
+            main.push(repeat(
+                int(n),
+                Some("i"),
+                comp(vec![
+                    set("_", nil()),
+                    set("nf", CardBody::NativeFunction("id1".into()).into()),
+                    set("sf", CardBody::Function("h".into()).into()),
+                    set("cf", closure(&["y"], vec![un("ret", bin("add", read("y"), read("i")))])),
+                    set("acc", bin("add", read("acc"), bin("add", dyncall(read("nf"), vec![int(1)]), bin("add", dyncall(read("sf"), vec![int(1)]), dyncall(read("cf"), vec![int(1)]))))),
+                ]),
+            ));
+            main.push(discard(native("log1", vec![read("acc")])));
+        }
         8 => {
             name = "compare:tables";
             // content comparison and hashing of tables, many times per run
